@@ -1296,6 +1296,10 @@ package goatlang
 //@ func (*VM).exec case codeGlobalStruct
 //@   property C07 C17
 //@   requires need(v, 1) && globalOK(v, ins(v).A) && is(top(v, 0).value, *structT) && as(top(v, 0).value, *structT) != nil
+//@   requires wfS(as(top(v, 0).value, *structT))
+//@   requires !v.globals.data[int(ins(v).A)].IsNil() ==> is(v.globals.data[int(ins(v).A)].value, *structT) && wfS(as(v.globals.data[int(ins(v).A)].value, *structT)) && as(v.globals.data[int(ins(v).A)].value, *structT) != as(top(v, 0).value, *structT) && as(v.globals.data[int(ins(v).A)].value, *structT).Lookup != as(top(v, 0).value, *structT).Lookup && arr(as(v.globals.data[int(ins(v).A)].value, *structT).Fields.pairs) != arr(as(top(v, 0).value, *structT).Fields.pairs) && arr(as(v.globals.data[int(ins(v).A)].value, *structT).Order) != arr(as(top(v, 0).value, *structT).Order)
+//@   ensures#inplace !old(v.globals.data[int(ins(v).A)]).IsNil() ==> v.globals.data[int(old(ins(v)).A)] == old(v.globals.data[int(ins(v).A)])
+//@   ensures#fresh old(v.globals.data[int(ins(v).A)]).IsNil() ==> v.globals.data[int(old(ins(v)).A)] == old(top(v, 0))
 //@   ensures#delta len(v.stack) == old(len(v.stack)) - 1
 //@   ensures#frame keeps(v, len(v.stack))
 //@   ensures#next stays(v)
@@ -1345,6 +1349,7 @@ package goatlang
 //@   ensures#next stays(v)
 //@ func (*VM).exec case codeStruct loop 0
 //@   invariant 0 <= n
+//@   invariant#type is(s.value, *structT) && wfS(as(s.value, *structT)) && isfresh(as(s.value, *structT))
 //@   invariant v.frame == old(v.frame) && v.stack == old(v.stack) && v.globals == old(v.globals) && len(v.backtrace) == old(len(v.backtrace))
 //@   invariant forall q int :: 0 <= q && q < len(v.stack) ==> v.stack[q] == old(v.stack[q])
 //@ func (*VM).exec case codeAppend
